@@ -1933,14 +1933,9 @@ class Controller:
         returncode = returncode if returncode is not None else component.engine.exitReason()
 
         # VV: @tag:RestartEngines
-        if exitReason in component.specification.workflowAttributes.get('restartHookOn', []):
-            try:
-                self.log.info("Attempting to restart due to %s %s (times so far: %d)" % (
-                    component.specification.reference, exitReason, component.engine.restarts))
-                retval = component.restart(reason=exitReason, code=returncode)
-            except Exception as error:
-                self.log.warning("Encountered exception when attempting engine restart: %s" % error)
-        elif exitReason == experiment.model.codes.exitReasons["SubmissionFailed"]:
+        # VV: Handle SubmissionFailed first so that the cap on consecutive resubmissions also applies to components
+        # which list SubmissionFailed in their restartHookOn (the engine does not count these as restarts)
+        if exitReason == experiment.model.codes.exitReasons["SubmissionFailed"]:
             #In this particular case we want to avoid continually resubmitting as the failure may
             #be e.g. the system is down
             self.log.info("Attempting to restart SubmissionFailed %s" % component.specification.reference)
@@ -1953,6 +1948,13 @@ class Controller:
                 retval = experiment.model.codes.restartCodes["RestartMaxAttemptsExceeded"]
                 self.log.critical("Maximum resubmission attempts (%d) exceeded (%s) - aborting" % (
                     self._max_resubmission_attempts, retval))
+        elif exitReason in component.specification.workflowAttributes.get('restartHookOn', []):
+            try:
+                self.log.info("Attempting to restart due to %s %s (times so far: %d)" % (
+                    component.specification.reference, exitReason, component.engine.restarts))
+                retval = component.restart(reason=exitReason, code=returncode)
+            except Exception as error:
+                self.log.warning("Encountered exception when attempting engine restart: %s" % error)
         elif exitReason not in [experiment.model.codes.exitReasons["Killed"], experiment.model.codes.exitReasons["Cancelled"],
                                 experiment.model.codes.exitReasons["Success"]]:
             self.log.debug("Checking for system stability")
